@@ -27,6 +27,9 @@ static REGISTRY: Mutex<Vec<Option<Arc<Shared>>>> = Mutex::new(Vec::new());
 fn schedule(r: VRunnable, tag: usize) {
     let sh = REGISTRY.lock().unwrap()[tag].clone();
     if let Some(sh) = sh {
+        if sh.in_poll.load(Ordering::SeqCst) {
+            sh.scheduled_during_poll.store(true, Ordering::SeqCst);
+        }
         sh.queue.lock().unwrap().push(r);
     }
 }
@@ -47,6 +50,8 @@ struct Shared {
     token: Mutex<Option<VCancelToken>>,
     fdrop: Mutex<String>,
     odrop: Mutex<String>,
+    in_poll: std::sync::atomic::AtomicBool,
+    scheduled_during_poll: std::sync::atomic::AtomicBool,
 }
 
 impl Shared {
@@ -108,6 +113,16 @@ impl Future for ScriptFut {
     type Output = Out;
     fn poll(self: Pin<&mut Self>, cx: &mut Context<'_>) -> Poll<Out> {
         let k = self.sh.polls.fetch_add(1, Ordering::SeqCst);
+        if self.sh.in_poll.swap(true, Ordering::SeqCst) {
+            self.sh.scheduled_during_poll.store(true, Ordering::SeqCst);
+        }
+        struct Guard<'a>(&'a std::sync::atomic::AtomicBool);
+        impl Drop for Guard<'_> {
+            fn drop(&mut self) {
+                self.0.store(false, Ordering::SeqCst);
+            }
+        }
+        let _g = Guard(&self.sh.in_poll);
         let item = self.sh.script.lock().unwrap().get(k).cloned().unwrap_or_else(|| "p".into());
         for c in item.chars() {
             match c {
@@ -240,7 +255,7 @@ impl Engine for TaskEngine {
         for l in lines {
             let w: Vec<&str> = l.split_whitespace().collect();
             let obs = |extra: &str| {
-                if sh.queue.lock().unwrap().len() > 1 || two_runnables.load(Ordering::SeqCst) {
+                if sh.queue.lock().unwrap().len() > 1 {
                     two_runnables.store(true, Ordering::SeqCst);
                 }
                 format!(
@@ -398,6 +413,10 @@ impl Engine for TaskEngine {
             if al != 1 || fr != 1 {
                 out.monitor.push(("C13".into(), format!("all handles released: {al} task allocation(s), {fr} deallocation(s)")));
             }
+        }
+        if sh.scheduled_during_poll.load(Ordering::SeqCst) {
+            out.monitor.push(("C05".into(), "a second Runnable was created (or the future re-entered) while the task was being polled: two computations of one task at the same time".into()));
+            out.monitor.push(("C13".into(), "a Runnable was scheduled while the task's own Runnable was polling it (two Runnables at once)".into()));
         }
         if sh.queue.lock().unwrap().len() > 1 || two_runnables.load(Ordering::SeqCst) {
             out.monitor.push(("C13".into(), "two Runnables of one task exist at the same time".into()));
